@@ -18,6 +18,30 @@ chk('C14',
     'Trusted: the Python graph model. IsReachableFrom(x,x) for x on a longer cycle is not judged.',
     'sanitizer build + executable-model monitor over operation histories', 'DESIGN.md 4 C14')
 
+chk('C15',
+    'Runtime monitoring with an executable model: pools of values of one typification are built through every Factory '
+    'route and representation (enumerated, lazy power set, lazy product, twins), and every comparison, set operation, '
+    'iteration and copy/AddElement sequence is compared with a Python frozenset/tuple/int model; order axioms are '
+    'checked on all pairs/triples of each pool. All values of five small types are enumerated; the rest is random.',
+    'Trusted: the Python value model. AddElement on lazy sets is not judged for its effect on that value.',
+    'sanitizer build + executable-model monitor (finite-set algebra) over generated value pools', 'DESIGN.md 4 C15')
+
+chk('C16',
+    'Runtime monitoring: FromSData/Unpack round trips of (typification, value) pairs (systematic small types, random '
+    'types to depth 5) are compared with the Python value model; every packed table is then mutated, decoded against '
+    'its own and foreign typifications, and random ragged tables are decoded, with the sanitizers, an exception trap '
+    'and a structural conformance checker (all elements) as oracles.',
+    'Trusted: the Python value model and conformance check.',
+    'sanitizer build + round-trip/conformance monitor over generated and mutated tables', 'DESIGN.md 4 C16')
+
+chk('C17',
+    'Runtime monitoring of reference sessions: generated UTF-8 texts with valid, malformed, adjacent and nested '
+    'markers are extracted, resolved against generated term contexts (with an inflection-tagging processor so that the '
+    'chosen form and master are observable), written back, edited by Insert/EraseIn, translated and re-resolved after '
+    'term edits; a Python reference scanner/grammar/resolution model and the range-alignment invariant judge every step.',
+    'Trusted: vf/refmodel.py. Texts on which two admissible scanning policies disagree are only checked for faults.',
+    'sanitizer build + reference-model and invariant monitors over operation histories', 'DESIGN.md 4 C17')
+
 for _p in ['C01', 'C02', 'C03', 'C04', 'C05', 'C06', 'C07', 'C08', 'C09', 'C10', 'C11', 'C12', 'C13', 'C15', 'C16',
            'C17', 'C18', 'C19']:
     if _p not in CHECKS:
